@@ -286,7 +286,7 @@ type session struct {
 }
 
 func newSession(tables []hist.Table, serverID uint32, start hist.Pos) (*session, error) {
-	return newSessionNet(tables, serverID, start, "tcp")
+	return newSessionNet(tables, serverID, start, "verifdial")
 }
 
 func newSessionNet(tables []hist.Table, serverID uint32, start hist.Pos, network string, dsnParams ...string) (*session, error) {
